@@ -2,7 +2,7 @@
    Statements only; proofs in Proofs/YamlProofs.v, Proofs/RulesProofs.v, Proofs/GraphEquivProofs.v. *)
 From Coq Require Import Permutation.
 From ACV Require Import Base.Strs Model.Graph Model.PathGrammar Model.Dnf Model.Rules Model.Report Model.Engine Model.Yaml Model.SharedRef Model.TemplatesRef.
-From ACV Require Import Proofs.RulesProofs Proofs.YamlProofs Extracted.SharedFacts Extracted.Templates.
+From ACV Require Import Model.ProfileParser Proofs.RulesProofs Proofs.YamlProofs Proofs.ParserProofs Extracted.SharedFacts Extracted.Templates.
 Local Open Scope list_scope.
 
 (* ties: mapping keys are looked up among the KEYS only and listed in document order; the prefix table is the
@@ -24,6 +24,22 @@ Proof. exact rewrite_same_verdict. Qed.
 Theorem C15_operand_order_results : forall f f', rewrite f f' -> wf_form f = true -> forall g cls n,
   In n (validation_results g cls f) <-> In n (validation_results g cls f').
 Proof. exact rewrite_same_results. Qed.
+(* the profile parser (ProfileParser.parse_expr: expressionparser.go / constraintsparser.go) reads an expression
+   mapping only through Get: reordering its keys changes nothing; reordering the constraints of one property
+   changes nothing; reordering the entries of propertyConstraints permutes the operands of the implicit and *)
+Theorem C15_parser_key_order : forall ctx fuel l l', NoDup (map fst l) -> Permutation l l' ->
+  parse_expr ctx fuel (YMap l) = parse_expr ctx fuel (YMap l').
+Proof. exact parse_expr_key_order. Qed.
+Theorem C15_parser_constraint_order : forall ctx fuel before path cm cm' after rest,
+  NoDup (map fst cm) -> Permutation cm cm' ->
+  parse_expr ctx (S fuel) (YMap (("propertyConstraints", YMap (before ++ (path, YMap cm) :: after)) :: rest))
+  = parse_expr ctx (S fuel) (YMap (("propertyConstraints", YMap (before ++ (path, YMap cm') :: after)) :: rest)).
+Proof. exact constraint_key_order. Qed.
+Theorem C15_parser_property_order : forall ctx fuel rest entries entries' f,
+  Permutation entries entries' ->
+  parse_expr ctx (S fuel) (YMap (("propertyConstraints", YMap entries) :: rest)) = POk f ->
+  exists f', parse_expr ctx (S fuel) (YMap (("propertyConstraints", YMap entries') :: rest)) = POk f' /\ rewrite f f'.
+Proof. exact property_constraints_order. Qed.
 (* reordering the names of a level list and the entries of `validations`: the same results per level *)
 Theorem C15_level_lists : forall g p p' l r,
   p_name p = p_name p' -> NoDup (map v_name (p_defs p)) -> Permutation (p_defs p) (p_defs p') -> Permutation (p_listed p) (p_listed p') ->
@@ -54,5 +70,8 @@ Print Assumptions C15_keys_perm.
 Print Assumptions C15_operand_order.
 Print Assumptions C15_operand_order_results.
 Print Assumptions C15_level_lists.
+Print Assumptions C15_parser_key_order.
+Print Assumptions C15_parser_constraint_order.
+Print Assumptions C15_parser_property_order.
 Print Assumptions C15_prefix_rename.
 Print Assumptions C15_prefix_alias.
